@@ -5,7 +5,8 @@ from fractions import Fraction
 import numpy as np
 
 from ..common import DataSet, gen_values, build_tree, all_canon_trees, make_tree_dist, extract
-from ..enumrng import run_all
+from ..enumrng import run_all, TooManyLeaves
+from ..common import install_tie_probe, tie_reset, TIE
 from phyclone.run import setup_kernel, setup_samplers
 from phyclone.utils.dev import clear_proposal_dist_caches
 
@@ -53,7 +54,7 @@ def cases(tier, rnd):
     for kind in ("bootstrap", "semi-adapted", "fully-adapted"):
         for outl in (False, True):
             cfgs.append({"move": "subtree", "n": 2 if (tier == "quick" and outl) else 3 if not outl else 2, "outliers": outl, "kind": kind, "N": 2,
-                         "theta": rnd.choice(["0/1", "1/2", "9/10"])})
+                         "theta": rnd.choice(["0/1", "1/2", "7/10"])})
     if tier == "thorough":
         cfgs += [{"move": "subtree", "n": 3, "outliers": True, "kind": k, "N": 2, "theta": "1/2"} for k in ("bootstrap", "fully-adapted")]
     gid = 0
@@ -109,8 +110,20 @@ def check(ctx, case):
     f, o = case["start"]
     ctx.stat("move_" + case["move"])
     ctx.stat(f"n_{case['n']}_outliers_{case['outliers']}")
-    row, leaves = real_row(case, ds, td)
+    install_tie_probe()
+    tie_reset(Fraction(case["theta"]))
+    try:
+        row, leaves = real_row(case, ds, td)
+    except TooManyLeaves:
+        ctx.stat("rows_skipped_too_many_leaves")  # not judged; the configuration's matrix stays incomplete
+        ctx.done(case, nontrivial=False, sample={"skipped": "too many leaves", "start": case["start"]})
+        return
     ctx.stat("enumerated_leaves", leaves)
+    if TIE["hit"]:
+        # a resampling decision sat on the threshold: exact and float arithmetic may legitimately disagree
+        ctx.stat("rows_skipped_threshold_tie")
+        ctx.done(case, nontrivial=False, sample={"skipped": "relative ESS within 1e-9 of the threshold", "start": case["start"]})
+        return
     lp1 = float(td.log_p_one(build_tree(ds.real, f, o)))
     ctx.partial(case["group"], {"start": tkey(f, o), "row": row, "lp1": lp1, "nstates": case["nstates"],
                                 "case": {k: v for k, v in case.items() if k != "start"}})
